@@ -62,7 +62,7 @@ def script_property(run, gen, relevant, variants_quick=("sse2-debug",), variants
                 samples = [blocks[0][:600]]
     all_findings += getattr(run, "extra_findings", [])
     prop_f = [f for f in all_findings if relevant(f)]
-    tie_f = [f for f in all_findings if f.kind in ("C-MISMATCH", "T-MISMATCH", "D-ERROR") and not relevant(f)]
+    tie_f = [f for f in all_findings if f.kind in ("C-MISMATCH", "T-MISMATCH", "D-ERROR", "X-MISMATCH") and not relevant(f)]
     if os.environ.get("HV_DEBUG"):        # every finding of the run, with its relevance for this property
         for f in all_findings[:200]:
             print(f"DEBUG-FINDING relevant={relevant(f)} {f.kind} script={f.script} {f.text[:300]}", file=sys.stderr)
@@ -152,6 +152,7 @@ def script_property(run, gen, relevant, variants_quick=("sse2-debug",), variants
         "traces_validated_against_impl": stats.get("level_c", 0),
         "level_a_steps": stats.get("level_a", 0), "level_b_states": stats.get("level_b", 0),
         "op_distribution": ops, "hard_branch_counts": branch, "variants": list(exes.keys()),
+        "extraction_selftest": {"steps_evaluated_inside_coq_and_in_ocaml": stats.get("selftest_cases", 0), "different": stats.get("selftest_mismatches", 0)},
         "proof_problems": cs["problems"], "cone_files": cs.get("files", []),
         "print_assumptions_closed": cs.get("assumptions_closed"), "coqchk": cs.get("coqchk"), "known_findings_hit": run.known_hits,
     }
